@@ -74,7 +74,49 @@ func abis() {
 	})
 }
 
+// refEventsJSON: the events as the deployed contracts declare them (DOSProxy.sol, CommitReveal.sol) — the harness'
+// own statement of what is on the chain, independent of the bindings under test.  The logs the chain double emits
+// (topic 0, data) are built from THIS description.
+const refEventsJSON = `[
+{"type":"event","name":"LogUpdateRandom","inputs":[{"name":"lastRandomness","type":"uint256"},{"name":"dispatchedGroupId","type":"uint256"}]},
+{"type":"event","name":"LogRequestUserRandom","inputs":[{"name":"requestId","type":"uint256"},{"name":"lastSystemRandomness","type":"uint256"},{"name":"userSeed","type":"uint256"},{"name":"dispatchedGroupId","type":"uint256"}]},
+{"type":"event","name":"LogUrl","inputs":[{"name":"queryId","type":"uint256"},{"name":"timeout","type":"uint256"},{"name":"dataSource","type":"string"},{"name":"selector","type":"string"},{"name":"randomness","type":"uint256"},{"name":"dispatchedGroupId","type":"uint256"}]},
+{"type":"event","name":"LogValidationResult","inputs":[{"name":"trafficType","type":"uint8"},{"name":"trafficId","type":"uint256"},{"name":"message","type":"bytes"},{"name":"signature","type":"uint256[2]"},{"name":"pubKey","type":"uint256[4]"},{"name":"pass","type":"bool"}]},
+{"type":"event","name":"LogGrouping","inputs":[{"name":"groupId","type":"uint256"},{"name":"nodeId","type":"address[]"}]},
+{"type":"event","name":"LogPublicKeyAccepted","inputs":[{"name":"groupId","type":"uint256"},{"name":"pubKey","type":"uint256[4]"},{"name":"numWorkingGroups","type":"uint256"}]},
+{"type":"event","name":"LogPublicKeySuggested","inputs":[{"name":"groupId","type":"uint256"},{"name":"pubKeyCount","type":"uint256"}]},
+{"type":"event","name":"LogGroupDissolve","inputs":[{"name":"groupId","type":"uint256"}]},
+{"type":"event","name":"LogInsufficientPendingNode","inputs":[{"name":"numPendingNodes","type":"uint256"}]},
+{"type":"event","name":"LogInsufficientWorkingGroup","inputs":[{"name":"numWorkingGroups","type":"uint256"},{"name":"numPendingGroups","type":"uint256"}]},
+{"type":"event","name":"LogGroupingInitiated","inputs":[{"name":"pendingNodePool","type":"uint256"},{"name":"groupsize","type":"uint256"}]},
+{"type":"event","name":"LogStartCommitReveal","inputs":[{"name":"cid","type":"uint256"},{"name":"startBlock","type":"uint256"},{"name":"commitDuration","type":"uint256"},{"name":"revealDuration","type":"uint256"},{"name":"revealThreshold","type":"uint256"}]},
+{"type":"event","name":"LogCommit","inputs":[{"name":"cid","type":"uint256"},{"name":"from","type":"address"},{"name":"commitment","type":"bytes32"}]},
+{"type":"event","name":"LogReveal","inputs":[{"name":"cid","type":"uint256"},{"name":"from","type":"address"},{"name":"secret","type":"uint256"}]},
+{"type":"event","name":"LogRandom","inputs":[{"name":"cid","type":"uint256"},{"name":"random","type":"uint256"}]}
+]`
+
+var (
+	refEvents abi.ABI
+	refOnce   sync.Once
+)
+
+// event: the reference description (not the binding's embedded ABI).
 func (s *evSpec) event() abi.Event {
+	refOnce.Do(func() {
+		var err error
+		if refEvents, err = abi.JSON(strings.NewReader(refEventsJSON)); err != nil {
+			panic(err)
+		}
+	})
+	ev, ok := refEvents.Events[s.name]
+	if !ok {
+		panic("no reference event " + s.name)
+	}
+	return ev
+}
+
+// bindingEvent: what the binding under test believes the event is.
+func (s *evSpec) bindingEvent() abi.Event {
 	abis()
 	if s.cr {
 		return crABI.Events[s.name]
